@@ -5,6 +5,8 @@ mod util;
 mod c02;
 mod c08;
 mod c12;
+mod c03;
+mod c07;
 
 fn main() {
     std::panic::set_hook(Box::new(|_| {}));
@@ -20,6 +22,8 @@ fn main() {
         "c02" => c02::run(tier, seed, &mut out),
         "c08" => c08::run(tier, seed, &mut out),
         "c12" => c12::run(tier, seed, &mut out),
+        "c03" => c03::run(tier, seed, &mut out),
+        "c07" => c07::run(tier, seed, &mut out),
         _ => {
             eprintln!("unknown family {}", fam);
             std::process::exit(2);
